@@ -770,10 +770,15 @@ func checkStoreCase(c StoreCase) (res vprop.Result) {
 	return res
 }
 
-func TestC15(t *testing.T) {
-	vprop.Run(t, vprop.Spec[StoreCase]{
+func c15Spec() vprop.Spec[StoreCase] {
+	return vprop.Spec[StoreCase]{
 		ID:    "C15",
 		Gen:   genStoreCase,
 		Check: checkStoreCase,
-	})
+	}
 }
+
+func TestC15(t *testing.T) { vprop.Run(t, c15Spec()) }
+
+// FuzzC15 is the byte-driven arm (thorough tier), see vprop.Fuzz.
+func FuzzC15(f *testing.F) { vprop.Fuzz(f, c15Spec()) }
